@@ -21,6 +21,7 @@
 (*   Get*           Get(): memory hit / fd hit / file open / miss          *)
 (*   ReadAt         Reader.ReadAt: whatever the buffer / inode holds NOW   *)
 (*   CloseReader    done() / fileCache.Add(key, file)                      *)
+(*   CloseCache     Close(): LRUs cleared, directory removed                *)
 (* Bytes are abstracted to (writer id, number of pieces): a value is       *)
 (* complete iff it has all pieces of its writer.                           *)
 (***************************************************************************)
@@ -50,10 +51,11 @@ VARIABLES
     fmap,    \* [Keys -> fd id | 0]                                    dc.fileCache
     flru,    \* Seq(Keys)
     R,       \* [1..NR -> [key, src, ref]]  src in {"none","mem","fd","file","dfile","closed"}
+    shut,    \* dc.closed: Close() was called (directory removed, both LRUs cleared)
     last     \* observation of the last step
 
-core == <<W, B, dmap, dlru, I, path, F, fmap, flru, R>>
-vars == <<W, B, dmap, dlru, I, path, F, fmap, flru, R, last>>
+core == <<W, B, dmap, dlru, I, path, F, fmap, flru, R, shut>>
+vars == <<W, B, dmap, dlru, I, path, F, fmap, flru, R, shut, last>>
 
 Writers == 1..NW
 Readers == 1..NR
@@ -84,10 +86,12 @@ Init ==
     /\ path = [k \in Keys |-> None]
     /\ fmap = [k \in Keys |-> None] /\ flru = <<>>
     /\ R = [r \in Readers |-> [key |-> "", src |-> "none", ref |-> None]]
+    /\ shut = FALSE
     /\ last = [act |-> "Init"]
 
 \* Add(key): wip file + (unless direct) a buffer from the pool: any pooled one, or a new one
 AddOpen(w, k, len, direct) ==
+    /\ ~shut
     /\ W[w].st = "none"
     /\ \A v \in Writers : v < w => W[v].st # "none"      \* symmetry: writers start in order
     /\ (DirectMode => direct)
@@ -101,7 +105,7 @@ AddOpen(w, k, len, direct) ==
             /\ B' = IF b <= Len(B) THEN [B EXCEPT ![b].pooled = FALSE] ELSE Append(B, EmptyBuf)
             /\ W' = [W EXCEPT ![w] = [key |-> k, len |-> len, written |-> 0, st |-> "open", buf |-> b,
                                       wip |-> Len(I) + 1, cached |-> None, direct |-> FALSE]]
-    /\ UNCHANGED <<dmap, dlru, path, F, fmap, flru, R>>
+    /\ UNCHANGED <<dmap, dlru, path, F, fmap, flru, R, shut>>
     /\ last' = [act |-> "AddOpen", w |-> w, k |-> k, len |-> len, direct |-> direct]
 
 Write(w) ==
@@ -112,11 +116,12 @@ Write(w) ==
             /\ B' = B
        ELSE /\ B' = [B EXCEPT ![W[w].buf].val = w, ![W[w].buf].n = @ + 1]
             /\ I' = I
-    /\ UNCHANGED <<dmap, dlru, path, F, fmap, flru, R>>
+    /\ UNCHANGED <<dmap, dlru, path, F, fmap, flru, R, shut>>
     /\ last' = [act |-> "Write", w |-> w]
 
 \* memW.Commit: dc.cache.Add(key, b); a duplicate keeps the cached buffer and recycles the writer's own
 CommitPublish(w) ==
+    /\ ~shut       \* after Close the memory writer's Commit fails ("cache is already closed") - not modelled further
     /\ W[w].st = "open" /\ ~W[w].direct /\ W[w].written = W[w].len
     /\ LET k == W[w].key
            b == W[w].buf
@@ -133,7 +138,7 @@ CommitPublish(w) ==
                   /\ dmap' = IF over THEN [dmap EXCEPT ![k] = b, ![ko] = None] ELSE [dmap EXCEPT ![k] = b]
                   /\ B' = IF over THEN MaybeRecycle([b1 EXCEPT ![dmap[ko]].inLRU = FALSE], dmap[ko]) ELSE b1
                   /\ W' = [W EXCEPT ![w].st = "published", ![w].cached = b, ![w].buf = None]
-    /\ UNCHANGED <<I, path, F, fmap, flru, R>>
+    /\ UNCHANGED <<I, path, F, fmap, flru, R, shut>>
     /\ last' = [act |-> "CommitPublish", w |-> w]
 
 \* commit(): w.Write(cached.Bytes()) into the wip file - whatever the cached buffer holds now
@@ -141,7 +146,7 @@ PersistWrite(w) ==
     /\ W[w].st = "published"
     /\ I' = [I EXCEPT ![W[w].wip] = [val |-> B[W[w].cached].val, n |-> B[W[w].cached].n]]
     /\ W' = [W EXCEPT ![w].st = "written"]
-    /\ UNCHANGED <<B, dmap, dlru, path, F, fmap, flru, R>>
+    /\ UNCHANGED <<B, dmap, dlru, path, F, fmap, flru, R, shut>>
     /\ last' = [act |-> "PersistWrite", w |-> w]
 
 \* commit(): os.Rename(wip, final); then the deferred done() drops the reference on the cached buffer
@@ -153,7 +158,7 @@ PersistRename(w) ==
             /\ W' = [W EXCEPT ![w].st = "done"]
        ELSE /\ B' = B
             /\ W' = [W EXCEPT ![w].st = "renamed"]
-    /\ UNCHANGED <<dmap, dlru, I, F, fmap, flru, R>>
+    /\ UNCHANGED <<dmap, dlru, I, F, fmap, flru, R, shut>>
     /\ last' = [act |-> "PersistRename", w |-> w]
 
 \* only with the negative control RenameAfterWrite = FALSE: the write after the rename
@@ -162,25 +167,27 @@ LateWrite(w) ==
     /\ I' = [I EXCEPT ![W[w].wip] = [val |-> B[W[w].cached].val, n |-> B[W[w].cached].n]]
     /\ B' = MaybeRecycle([B EXCEPT ![W[w].cached].holders = @ - 1], W[w].cached)
     /\ W' = [W EXCEPT ![w].st = "done"]
-    /\ UNCHANGED <<dmap, dlru, path, F, fmap, flru, R>>
+    /\ UNCHANGED <<dmap, dlru, path, F, fmap, flru, R, shut>>
     /\ last' = [act |-> "LateWrite", w |-> w]
 
 CommitDirect(w) ==
+    /\ ~shut
     /\ W[w].st = "open" /\ W[w].direct /\ W[w].written = W[w].len
     /\ path' = [path EXCEPT ![W[w].key] = W[w].wip]
     /\ W' = [W EXCEPT ![w].st = "done"]
-    /\ UNCHANGED <<B, dmap, dlru, I, F, fmap, flru, R>>
+    /\ UNCHANGED <<B, dmap, dlru, I, F, fmap, flru, R, shut>>
     /\ last' = [act |-> "CommitDirect", w |-> w]
 
 Abort(w) ==
     /\ W[w].st = "open"
     /\ B' = IF W[w].direct THEN B ELSE PutBuffer(B, W[w].buf)
     /\ W' = [W EXCEPT ![w].st = "aborted", ![w].buf = None]
-    /\ UNCHANGED <<dmap, dlru, I, path, F, fmap, flru, R>>
+    /\ UNCHANGED <<dmap, dlru, I, path, F, fmap, flru, R, shut>>
     /\ last' = [act |-> "Abort", w |-> w]
 
 \* Get(key): memory layer, then descriptor cache, then the directory
 Get(r, k, direct) ==
+    /\ ~shut
     /\ R[r].src = "none"
     /\ \A q \in Readers : q < r => R[q].src # "none"
     /\ (DirectMode => direct)
@@ -204,7 +211,7 @@ Get(r, k, direct) ==
        ELSE /\ R' = [R EXCEPT ![r] = [key |-> k, src |-> "closed", ref |-> None]]
             /\ UNCHANGED <<B, dlru, F, flru>>
             /\ last' = [act |-> "Get", r |-> r, k |-> k, direct |-> direct, hit |-> FALSE, src |-> "miss"]
-    /\ UNCHANGED <<W, dmap, I, path, fmap>>
+    /\ UNCHANGED <<W, dmap, I, path, fmap, shut>>
 
 \* what a ReadAt of the whole value returns right now
 Content(r) ==
@@ -244,10 +251,35 @@ CloseReader(r) ==
                             /\ fmap' = IF over THEN [fmap EXCEPT ![k] = x, ![ko] = None] ELSE [fmap EXCEPT ![k] = x]
                             /\ F' = IF over THEN MaybeCloseFd([f1 EXCEPT ![fmap[ko]].inLRU = FALSE], fmap[ko]) ELSE f1
     /\ R' = [R EXCEPT ![r].src = "closed"]
-    /\ UNCHANGED <<W, dmap, dlru, I, path>>
+    /\ UNCHANGED <<W, dmap, dlru, I, path, shut>>
     /\ last' = [act |-> "CloseReader", r |-> r]
 
+\* Close(): dc.closed, both LRUs cleared (every entry leaves; buffers/files of open readers survive until released -
+\* the C10 contract), directory removed (final files unlinked: descriptors that are open keep their inode).
+\* Only enabled when no persistence goroutine is between publish and rename (a Close racing with it makes the rename
+\* fail, which this model does not follow).
+RECURSIVE RecycleAll(_, _)
+RecycleAll(bs, S) ==
+    IF S = {} THEN bs
+    ELSE LET b == CHOOSE x \in S : TRUE IN RecycleAll(MaybeRecycle([bs EXCEPT ![b].inLRU = FALSE], b), S \ {b})
+RECURSIVE CloseAllFds(_, _)
+CloseAllFds(fs, S) ==
+    IF S = {} THEN fs
+    ELSE LET f == CHOOSE x \in S : TRUE IN CloseAllFds(MaybeCloseFd([fs EXCEPT ![f].inLRU = FALSE], f), S \ {f})
+CloseCache ==
+    /\ ~shut
+    /\ \A w \in Writers : W[w].st \notin {"published", "written", "renamed"}
+    /\ shut' = TRUE
+    /\ B' = RecycleAll(B, {dmap[k] : k \in {x \in Keys : dmap[x] # None}})
+    /\ F' = CloseAllFds(F, {fmap[k] : k \in {x \in Keys : fmap[x] # None}})
+    /\ dmap' = [k \in Keys |-> None] /\ dlru' = <<>>
+    /\ fmap' = [k \in Keys |-> None] /\ flru' = <<>>
+    /\ path' = [k \in Keys |-> None]
+    /\ UNCHANGED <<W, I, R>>
+    /\ last' = [act |-> "CloseCache"]
+
 Next ==
+    \/ CloseCache
     \/ \E w \in Writers, k \in Keys, len \in Lens, d \in BOOLEAN : AddOpen(w, k, len, d)
     \/ \E w \in Writers : Write(w)
     \/ \E w \in Writers : CommitPublish(w)
